@@ -6,6 +6,7 @@ import "strings"
 // body: the minimal applications of `select` or of an uninterpreted function that mention v.
 func triggers(body, v string) []string {
 	var out []string
+	bad := false // some occurrence of v is only reachable through arithmetic: leave the quantifier to the solver
 	seen := map[string]bool{}
 	var walk func(s string) bool // returns whether s mentions v
 	walk = func(s string) bool {
@@ -44,6 +45,20 @@ func triggers(body, v string) []string {
 			return false
 		}
 		isApp := head == "select" || strings.HasPrefix(head, "uf_") || strings.HasPrefix(head, "spec!") || strings.HasPrefix(head, "|uf_") || head == "birth"
+		if isApp && !childCand {
+			// E-matching does not see through arithmetic: only accept applications in which the bound
+			// variable occurs as a direct argument
+			direct := false
+			for _, p := range parts[1:] {
+				if strings.TrimSpace(p) == v {
+					direct = true
+				}
+			}
+			if !direct {
+				bad = true
+				return true
+			}
+		}
 		if isApp && !childCand && !seen[s] {
 			seen[s] = true
 			out = append(out, s)
@@ -51,6 +66,9 @@ func triggers(body, v string) []string {
 		return true
 	}
 	walk(body)
+	if bad {
+		return nil
+	}
 	return out
 }
 
@@ -99,4 +117,65 @@ func splitSexp(s string) []string {
 		out = append(out, s[start:])
 	}
 	return out
+}
+
+// absolutise: E-matching cannot see through `(+ X v)`. When every occurrence of the bound variable v
+// in body is inside one and the same sum `(+ X v)` (string indexing with a fixed offset X) or is bare,
+// the quantifier is restated over the absolute index a = X + v: `(+ X v)` becomes `a` and any other
+// occurrence of v becomes `(- a X)`. Returns the new body, or ok=false if the shape does not apply.
+func absolutise(body, v, a string) (string, bool) {
+	offsets := map[string]bool{}
+	var scan func(s string)
+	scan = func(s string) {
+		s = strings.TrimSpace(s)
+		if !strings.HasPrefix(s, "(") {
+			return
+		}
+		parts := splitSexp(s[1 : len(s)-1])
+		if len(parts) == 3 && parts[0] == "+" && parts[2] == v && !mentions(parts[1], v) {
+			offsets[parts[1]] = true
+			return
+		}
+		for _, p := range parts[1:] {
+			scan(p)
+		}
+	}
+	scan(body)
+	if len(offsets) != 1 {
+		return "", false
+	}
+	var x string
+	for k := range offsets {
+		x = k
+	}
+	var rw func(s string) string
+	rw = func(s string) string {
+		s = strings.TrimSpace(s)
+		if !strings.HasPrefix(s, "(") {
+			if s == v {
+				return "(- " + a + " " + x + ")"
+			}
+			return s
+		}
+		parts := splitSexp(s[1 : len(s)-1])
+		if len(parts) == 3 && parts[0] == "+" && parts[2] == v && parts[1] == x {
+			return a
+		}
+		out := make([]string, len(parts))
+		out[0] = parts[0]
+		for i, p := range parts[1:] {
+			out[i+1] = rw(p)
+		}
+		return "(" + strings.Join(out, " ") + ")"
+	}
+	return rw(body), true
+}
+
+func mentions(s, v string) bool {
+	for _, t := range strings.FieldsFunc(s, func(r rune) bool { return r == '(' || r == ')' || r == ' ' }) {
+		if t == v {
+			return true
+		}
+	}
+	return false
 }
